@@ -710,18 +710,21 @@ func c17Run(ctx *rt.Ctx) []*rt.Violation {
 		seq = append(seq, rt.Job{Name: "seq", NShards: 1, Args: b})
 	}
 	type cc struct {
-		p     c17Params
-		bound int
+		p      c17Params
+		bound  int
+		shards int // level-1 subtrees of the schedule tree are dealt to this many worker processes
 	}
-	concs := []cc{{c17Params{Threads: 2}, 2}, {c17Params{Threads: 2, Mixed: true}, 2}, {c17Params{Threads: 3}, 1}, {c17Params{Threads: 2, Args: true}, 2}, {c17Params{Threads: 3, Args: true}, 1}, {c17Params{Threads: 2, LRU: true}, 1}, {c17Params{Threads: 2, Args: true, LRU: true}, 1}}
+	concs := []cc{{c17Params{Threads: 2}, 2, 2}, {c17Params{Threads: 2, Mixed: true}, 2, 5}, {c17Params{Threads: 3}, 1, 1}, {c17Params{Threads: 2, Args: true}, 2, 2}, {c17Params{Threads: 3, Args: true}, 1, 1}, {c17Params{Threads: 2, LRU: true}, 2, 2}, {c17Params{Threads: 2, Args: true, LRU: true}, 1, 1}}
 	if ctx.Thorough() {
-		concs = []cc{{c17Params{Threads: 2}, 4}, {c17Params{Threads: 2, Mixed: true}, 3}, {c17Params{Threads: 3}, 2}, {c17Params{Threads: 3, Mixed: true}, 2}, {c17Params{Threads: 2, Args: true}, 3}, {c17Params{Threads: 3, Args: true}, 2}, {c17Params{Threads: 2, LRU: true}, 3}, {c17Params{Threads: 3, Args: true, LRU: true}, 1}}
+		concs = []cc{{c17Params{Threads: 2}, 4, 6}, {c17Params{Threads: 2, Mixed: true}, 3, 8}, {c17Params{Threads: 3}, 2, 6}, {c17Params{Threads: 3, Mixed: true}, 2, 8}, {c17Params{Threads: 2, Args: true}, 3, 4}, {c17Params{Threads: 3, Args: true}, 2, 6}, {c17Params{Threads: 2, LRU: true}, 3, 4}, {c17Params{Threads: 3, Args: true, LRU: true}, 1, 2}}
 	}
 	var conc []rt.Job
 	for _, c := range concs {
 		pb, _ := json.Marshal(c.p)
-		b, _ := json.Marshal(e3Job{Scenario: "first-use", Params: pb, Bound: c.bound})
-		conc = append(conc, rt.Job{Name: "conc", NShards: 1, Args: b})
+		for sh := 0; sh < c.shards; sh++ {
+			b, _ := json.Marshal(e3Job{Scenario: "first-use", Params: pb, Bound: c.bound, Shard: sh, NShards: c.shards})
+			conc = append(conc, rt.Job{Name: "conc", Shard: sh, NShards: c.shards, Args: b})
+		}
 	}
 	done := make(chan []rt.JobOutcome)
 	go func() { done <- rt.RunJobs(ctx, conc, rt.SpawnOpt{Race: true}) }()
